@@ -11,6 +11,9 @@ RULE = (
     'random sub-batches (a vectorised decoder must not depend on batch composition), and through the real eigenvector column loaders of a generated '
     'catalogue holding every code; coverage probed with random + adversarial directions. non-trivial = distinct codes decoded and checked'
 )
+RULE += (
+    ' Added after seeded round 9: filtered loads of the eigenvector columns (rows dropped in the middle / at the start / all but one); the process\'s first decode issued from 2-16 threads at once in fresh child processes.'
+)
 ASSUMPTIONS = ['coverage bound 4.0 degrees up to sign (statement: "about 4 degrees"; observed covering radius 3.1)', 'distinctness judged after rounding to 1e-9']
 
 NCODES = 12 * 121 * 45
